@@ -38,6 +38,8 @@ var framings = [][2]string{
 	{"<%= if (", ") { %>"},
 	{"<%= a.b(", ") { %>x<% } %>"},
 	{"<%= {k: ", "} %>"},
+	{"<%#", "%>t<% let a = 1 %>"},
+	{"a<%# x ", " %><%= 1 %>"},
 }
 
 // total: Parse returns; the result is a tree or an error with a message.
